@@ -18,7 +18,7 @@ from __future__ import annotations
 
 import ast
 
-from .. import ctx
+from .. import ctx, paths
 from ..flow import yields_in
 from ..fnview import FnView
 from ..pattern import find, match
@@ -234,63 +234,25 @@ def v4(run, project):
     g = vals.functions().get("ValidValues.get")
     if c is None or g is None:
         raise AnalysisError("C04: ValidValues.__contains__/get not found")
-    rets = [s for s in walk_no_nested(c) if isinstance(s, ast.Return)]
+    from .outcomes import check_table, label, stores
     p = c.args.args[1].arg
-    ok = len(rets) == 1 and norm(rets[0].value) == f"self.get({p}) is not None"
-    run.ob("V4", ok, "ValidValues.__contains__ is `get(value) is not None`",
-           f"__contains__ returns `{norm(rets[0].value) if rets else '?'}`", module=vals, node=c, func="ValidValues.__contains__")
-    # get(): loop over self._values; container hit / equality hit return non-None; miss returns None
-    val = g.args.args[1].arg
-    loops = [s for s in g.body if isinstance(s, ast.For)]
-    if len(loops) != 1 or norm(loops[0].iter) != "self._values":
-        raise AnalysisError("C04: ValidValues.get does not iterate self._values")
-    lp = loops[0]
-    pre = [x for x in g.body[:g.body.index(lp)] if not (isinstance(x, ast.Expr) and isinstance(x.value, ast.Constant))]
-    run.ob("V4", not pre, "get(): nothing is decided before the items are examined",
-           f"`{norm(pre[0]).splitlines()[0][:80]}` runs before the item loop (a value can be accepted / rejected without consulting the set)"
-           if pre else "", module=vals, node=pre[0] if pre else g, func="ValidValues.get", construct="get prologue")
-    v = lp.target.id
-    ifs = [s for s in lp.body if isinstance(s, ast.If)]
-    cont = [s for s in ifs if norm(s.test) == f"hasattr({v}, '__contains__') and {val} in {v}"]
-    eq = [s for s in ifs if norm(s.test) in (f"{val} == {v}", f"{v} == {val}")]
-    run.ob("V4", len(cont) == 1, "get(): container items are tested with `value in item`",
-           f"container test is `{[norm(s.test) for s in ifs]}`", module=vals, node=lp, func="ValidValues.get",
-           construct="get container test")
-    run.ob("V4", len(eq) == 1 and len(eq[0].body) == 1 and norm(eq[0].body[0]) == f"return {v}",
-           "get(): scalar items are tested with equality and returned", f"scalar test is `{[norm(s.test) for s in ifs]}`",
-           module=vals, node=lp, func="ValidValues.get", construct="get equality test")
-    for r in [n for n in ast.walk(lp) if isinstance(n, ast.Return)]:
-        isnone = r.value is None or (isinstance(r.value, ast.Constant) and r.value.value is None)
-        run.ob("V4", not isnone, f"get(): hit at L{r.lineno} returns a non-None object", "a hit returns None (member reported invalid)",
-               module=vals, node=r, func="ValidValues.get", construct=norm(r))
-    tail = g.body[g.body.index(lp) + 1:]
-    ok = len(tail) == 1 and isinstance(tail[0], ast.Return) and (tail[0].value is None or (
-        isinstance(tail[0].value, ast.Constant) and tail[0].value.value is None))
-    run.ob("V4", ok, "get(): a miss returns None", "a miss no longer returns None (non-member reported valid)",
-           module=vals, node=g, func="ValidValues.get", construct="get miss")
-    # loop is not cut short
-    cut = [n for n in ast.walk(lp) if isinstance(n, (ast.Break, ast.Continue))]
-    run.ob("V4", not cut, "get(): every item is examined", "break/continue inside the item loop", module=vals, node=lp,
-           func="ValidValues.get", construct="get loop")
-    # NamedRange.__contains__ half-open; enum class_contains = equality or containment over members
-    nc = vals.functions().get("NamedRange.__contains__")
-    if nc is None:
-        raise AnalysisError("C04: NamedRange.__contains__ not found")
-    rets = [s for s in walk_no_nested(nc) if isinstance(s, ast.Return)]
-    it = nc.args.args[1].arg
-    ok = len(rets) == 1 and norm(rets[0].value) in (f"self._start <= {it} < self._end", f"{it} >= self._start and {it} < self._end",
-                                                     f"{it} in range(self._start, self._end)")
-    run.ob("V4", ok, "NamedRange.__contains__ is half-open [start, end)", f"returns `{norm(rets[0].value) if rets else '?'}`",
-           module=vals, node=nc, func="NamedRange.__contains__")
+    n = check_table(run, "V4", vals, c, "ValidValues.__contains__", [({f"self.get({p}) is None": False}, "True")], lambda q: q.value_text(),
+                    "False", "ValidValues.__contains__ is `get(value) is not None`", "ValidValues.__contains__", predicate=True)
+    run.require(n >= 2, "C04: ValidValues.__contains__ has no two outcomes")
+    valid_values_get(run, "V4", vals, g)
+    named_range_contains(run, "V4", vals)
     ni = vals.functions().get("NamedRange.__init__")
-    asg = {norm(s.targets[0]): norm(s.value) for s in ast.walk(ni) if isinstance(s, ast.Assign)}
+    if ni is None:
+        raise AnalysisError("C04: NamedRange.__init__ not found")
     params = [a.arg for a in ni.args.args]
-    ok = len(params) >= 5 and any(isinstance(s, ast.If) and norm(s.test) == f"{params[4]} is None" and
-                                  {norm(x) for x in s.body} == {"self._start = 0", f"self._end = {params[3]}"} and
-                                  {norm(x) for x in s.orelse} == {f"self._start = {params[3]}", f"self._end = {params[4]}"}
-                                  for s in ni.body)
-    run.ob("V4", ok, "NamedRange(type, name, a, b) spans [a, b)", "NamedRange.__init__ no longer stores start=a, end=b",
-           module=vals, node=ni, func="NamedRange.__init__")
+    run.require(len(params) >= 5, "C04: NamedRange.__init__ signature changed")
+    pa, pb = params[3], params[4]
+    n = check_table(run, "V4", vals, ni, "NamedRange.__init__",
+                    [({f"{pb} is None": True}, ("0", pa)), ({f"{pb} is None": False}, (pa, pb))],
+                    lambda q: (stores(q).get("self._start"), stores(q).get("self._end")), None,
+                    "NamedRange(type, name, a, b) spans [a, b), NamedRange(type, name, a) spans [0, a)", "NamedRange.__init__",
+                    skip=lambda q: q.end == "raise", show=lambda o: f"[start, end) = {o}")
+    run.require(n >= 2, "C04: NamedRange.__init__ has no two outcomes")
     cc = vals.functions().get("tpm_enum._tpm_enum.class_contains")
     if cc is None:
         raise AnalysisError("C04: tpm_enum.class_contains not found")
@@ -299,6 +261,82 @@ def v4(run, project):
     ok = len(rets) == 1 and norm(rets[0].value) == f"any((value == attr or (hasattr(attr, '__contains__') and value in attr) for attr in cls))".replace("value", vv)
     run.ob("V4", ok, "enum class membership = equality with or containment in a member",
            f"class_contains returns `{norm(rets[0].value) if rets else '?'}`", module=vals, node=cc, func="tpm_enum.class_contains")
+
+
+def valid_values_get(run, rule, vals, g):
+    """ValidValues.get(value): the items of the set are examined in order; a container item (has __contains__) that contains
+    the value answers with the value's representation in it (the value itself for a range, the named member for a NamedRange,
+    the enum member for an enum class), a scalar item equal to the value answers with the item, anything else goes on to
+    the next item; when no item answers the result is None.  Decided per iteration path of the item loop."""
+    from .outcomes import View, label
+    val = g.args.args[1].arg
+    ps = paths.summarise(vals, g)
+    outside = [p for p in ps if not any(a.startswith("loop@") for a, _v, _ in p.cond)]
+    tails = [p for p in outside if any(k == "loop" for k, _e, _n in p.effects)]
+    early = [p for p in outside if p not in tails]
+    run.ob(rule, not early, "get(): nothing is decided before the items are examined",
+           f"get() has a path [{label(early[0]) if early else ''}] that ends ({early[0].end if early else ''}) before the item loop: a "
+           "value can be accepted / rejected without consulting the set (prologue)", module=vals, node=(early[0].node if early else None) or g,
+           func="ValidValues.get", construct="get prologue")
+    ok = len(tails) == 1 and tails[0].end in ("return", "fall") and (tails[0].value is None or tails[0].value_text() == "None")
+    run.ob(rule, ok, "get(): a miss returns None", "a miss no longer returns None (non-member reported valid)" if tails else
+           "get() has no path that leaves the item loop normally", module=vals, node=g, func="ValidValues.get", construct="get miss")
+    if not tails:
+        return
+    t = tails[0]
+    loops = [(e, n) for k, e, n in t.effects if k == "loop"]
+    others = [k for k, e, n in t.effects if k not in ("loop",)]
+    ok = len(loops) == 1 and paths.text(loops[0][0]) == "self._values" and not others
+    run.ob(rule, ok, "get(): exactly the items of the set are examined, nothing is decided before or after",
+           f"get() iterates {[paths.text(e) for e, _ in loops]} with other effects {others} (a value can be accepted / rejected "
+           "without consulting the set)", module=vals, node=g, func="ValidValues.get", construct="get item loop")
+    if len(loops) != 1:
+        return
+    lp = loops[0][1]
+    v = lp.target.id if isinstance(lp.target, ast.Name) else None
+    run.require(v is not None, "C04: the item loop of ValidValues.get does not bind a plain name")
+    H, I, E = f"hasattr({v}, '__contains__')", f"{val} in {v}", f"{v} == {val}"
+    R, N = f"isinstance({v}, range)", f"isinstance({v}, NamedRange)"
+    its = t.loops[id(lp)]
+    atoms = {a for p in its for a, _v, _ in p.cond}
+    if E not in atoms and f"{val} == {v}" in atoms:
+        E = f"{val} == {v}"
+    rows = [({H: True, I: True, R: True}, f"return {val}"),
+            ({H: True, I: True, R: False, N: True}, f"return {v}.by_number({val})"),
+            ({H: True, I: True, R: False, N: False}, f"return {v}({val})"),
+            ({E: True}, f"return {v}"),
+            ]
+    # the containers of a valid set are ranges, NamedRanges and enum classes: none of them compares equal to a number
+    implies = [((H, True), (E, False))]
+    n = 0
+    for p in its:
+        want = paths.decide(rows, "next item", View(p), implies)
+        if not want:
+            continue
+        got = f"return {p.value_text()}" if p.end == "return" else "next item" if p.end in ("fall", "continue") else p.end
+        n += 1
+        run.ob(rule, want == {got}, f"get() item [{label(p)}]: {got}",
+               f"for an item with [{label(p)}] get() does `{got}`, required: {' or '.join(sorted(want))}: "
+               + ("a member is reported invalid / a non-member valid, or the wrong representation is returned"), module=vals,
+               node=p.node or lp, func="ValidValues.get", construct="get item decision")
+    run.require(n >= 5, f"C04: only {n} item paths in ValidValues.get")
+
+
+def named_range_contains(run, rule, vals):
+    """NamedRange.__contains__(item) is true exactly for start <= item < end"""
+    from .outcomes import check_table
+    nc = vals.functions().get("NamedRange.__contains__")
+    if nc is None:
+        raise AnalysisError("C04: NamedRange.__contains__ not found")
+    it = nc.args.args[1].arg
+    S = paths.Summariser(vals, nc, predicate=True)
+    ps = S.paths()
+    atoms = {a for p in ps for a, _v, _ in p.cond}
+    rng = f"{it} in range(self._start, self._end)"
+    rows = [({rng: True}, "True")] if rng in atoms else [({f"{it} < self._start": False, f"{it} < self._end": True}, "True")]
+    n = check_table(run, rule, vals, nc, "NamedRange.__contains__", rows, lambda q: q.value_text(), "False",
+                    "NamedRange.__contains__ is half-open [start, end)", "NamedRange.__contains__", ps=ps)
+    run.require(n >= 2, "C04: NamedRange.__contains__ has no two outcomes")
 
 
 def v6(run, project, roles, L):
